@@ -56,4 +56,11 @@ def idToMonthOk (id : Int) (beginning : Bool) (r : Date) : Bool :=
 def dayDeltaOk (d : Date) (q : Int) (negative : Bool) (r : Date) : Bool :=
   r.valid && r.ordinal == d.ordinal + (if negative then -q else q)
 
+/-- composition on month ends: `r2 = add_months(add_months(d, j), k)` (two calls) is the last day of the month `j + k`
+calendar months after `d`'s — what ONE call with `j + k` must give, too -/
+def composeOk (d : Date) (j k : Int) (r2 : Date) : Bool := monthEndShiftOk d (j + k) r2
+
+/-- `back = add_months(add_months(d, k), -k)` is `d` again -/
+def undoOk (d back : Date) : Bool := back == d
+
 end Bermuda.Spec
